@@ -23,6 +23,7 @@ def run(ctx):
             if ctx.tier == "quick":
                 runs += [("random", ["-mode", "random", "-cases", "1500", "-len", "30"])]
                 runs += [("random-" + b.replace(":", "_"), ["-mode", "random", "-cases", "150", "-len", "40", "-only", b]) for b in BACKENDS]
+                runs += [("exhaustive", ["-mode", "exhaustive", "-maxlen", "3"])]
             else:
                 runs += [("random", ["-mode", "random", "-cases", "40000", "-len", "40"])]
                 runs += [("random-" + b.replace(":", "_"), ["-mode", "random", "-cases", "6000", "-len", "60", "-only", b]) for b in BACKENDS]
@@ -52,8 +53,8 @@ def run(ctx):
                        "x 3-5 stamps (overlapping keys; int64 extremes, negatives), records with key lengths 0..60 incl. every base64 "
                        "padding class, revoked flag, with/without parent meta (ids with quotes, control characters, non-ASCII, HTML "
                        "characters, empty), per backend memory / sql x {default,mysql,postgres,oracle} / ddb v1 / ddb v2 x table name "
-                       "option x region suffix; every case ends with a sweep reading every key back; thorough adds every history up to "
-                       "length 4 over a 9-operation alphabet per backend; an operation counts as non-trivial when it was a refused "
+                       "option x region suffix; every case ends with a sweep reading every key back; plus every history of "
+                       "length 3 (quick) / 4 (thorough) over a 10-operation alphabet per backend kind; an operation counts as non-trivial when it was a refused "
                        "duplicate, a read that returned a record, or ran under an injected backend failure")
     ctx.cov["runs"] = traces
     ctx.assumptions += [
@@ -67,6 +68,8 @@ def run(ctx):
         "EnvelopeKeyRecord.ID is tagged json:\"-\": the persistent backends return ID=\"\"; 'every field intact' is proved for the "
         "persisted fields (Revoked, Created, Key, ParentKeyMeta); the in-memory metastore returns the stored pointer",
         "DynamoDB refuses empty key attribute values: the DynamoDB theorems assume non-empty key ids",
+        "Store is given a non-nil record (envelope.go always passes one): with nil the DynamoDB metastores panic and memory/SQL keep an "
+        "entry that reads back as not-found (observed on the real code; outside 'all record contents')",
     ]
     ctx.trusted += ["go/cmd/hxmetastore + go/internal/fakeddb + go/internal/fakesql + Driver/Metastore.lean (differential correspondence "
                     "through the public Metastore interface, requests compared canonically)",
